@@ -312,6 +312,60 @@ def sec_nans(rep):
     except Exception:  # noqa
         ok = False
     rep.add(ob_eval("C16/replace_nans_with_0/empty-list", ok))
+    # Runner.get_result hands out the CLEANED object: a non-finite raw entry (LeProHQ at very small x,
+    # the intrinsic term at extreme Q2/m2) never reaches the caller
+    from yadism import runner as rmod
+    from yadism.sf import StructureFunction
+
+    class Progress:
+        def __init__(s, *a, **k):
+            pass
+
+        def __enter__(s):
+            return s
+
+        def __exit__(s, *a):
+            pass
+
+        def add_task(s, *a, **k):
+            return 0
+
+        def update(s, *a, **k):
+            pass
+
+    class Elem:
+        def __init__(s, q2):
+            s.Q2 = q2
+
+        def get_result(s):
+            v = np.array([[1.0, np.nan, np.inf], [-np.inf, 2.0, 3.0]])
+            return ESFResult(0.1, s.Q2, None, {(2, 0, 0, 0): (v, v.copy())})
+
+    class Obs(StructureFunction):
+        def __init__(s):
+            s.esfs = [Elem(10.0), Elem(4.0)]
+            s.cache = {}
+
+        def drop_cache(s):
+            s.cache = {}
+
+    for name in ("F2_light", "FL_total", "g1_charm"):
+        rep.cases += 1
+        rr = rmod.Runner.__new__(rmod.Runner)
+        rr.console = type("C", (), {"print": lambda self, *a, **k: None})()
+        rr.observables = {name: Obs()}
+        rr._observables = {"observables": {name: [None, None]}}
+        rr._output = Output()
+        rr._output["pids"] = [1, 2]
+        try:
+            with rebind((rmod.rich.progress, "Progress", Progress)):
+                res = rr.get_result()
+            bad = [(i, k) for i, pt in enumerate(res[name]) for k, vals in pt.orders.items() for arr in vals if not np.all(np.isfinite(arr))]
+            kept = all(pt.orders[(2, 0, 0, 0)][0][0, 0] == 1.0 and pt.orders[(2, 0, 0, 0)][0][1, 2] == 3.0 for pt in res[name])
+            ok, detail = not bad and kept and len(res[name]) == 2, f"non-finite entries handed out at (point, order): {bad}; finite entries kept: {kept}"
+        except Exception as e:  # noqa
+            ok, detail = False, f"{type(e).__name__}: {e}"
+        rep.add(ob_eval(f"C16/Runner.get_result/post(the returned operator is the cleaned one: no NaN / inf)/{name}", ok, detail=detail, inputs={} if ok else {"observable": name, "raw entries": "[[1, nan, inf], [-inf, 2, 3]] at order (2,0,0,0), two points", "observed": detail}, replay={"confirmed": True, "python": "Runner.get_result() on a runner whose elements return the listed raw entries"}))
 
 
 def sec_selfcheck(rep, seed):
